@@ -2,10 +2,19 @@
 package main
 
 import (
+	"context"
 	"encoding/hex"
 	"fmt"
 	"sort"
 	"strings"
+
+	"github.com/sirupsen/logrus"
+	"sigs.k8s.io/knftables"
+
+	"github.com/projectcalico/calico/felix/environment"
+	"github.com/projectcalico/calico/felix/iptables/testutils"
+	"github.com/projectcalico/calico/felix/nftables"
+	"github.com/projectcalico/calico/lib/logrusr"
 
 	"github.com/projectcalico/calico/felix/generictables"
 	"github.com/projectcalico/calico/felix/ipsets"
@@ -29,6 +38,15 @@ type state struct {
 	table    *nfsem.Table
 	env      *nfsem.Env
 	panicked bool
+
+	// real nftables table + maps over the knftables fake (ops nft-new / nft-set / nft-probe)
+	nftFake  *knftables.Fake
+	nftTable *nftables.NftablesTable
+	nftLayer generictables.Table
+	nftR     *rules.DefaultRuleRenderer
+	nftNames []string        // current workload interface names
+	nftSeen  map[string]bool // every name ever configured in this history
+	nftEps   map[string]bool // endpoint chains currently programmed
 }
 
 func encName(s string) string { return "x" + hex.EncodeToString([]byte(s)) }
@@ -258,8 +276,163 @@ func (s *state) install(cs []*generictables.Chain, panicked bool, r *rules.Defau
 	return nfsem.Show(s.text)
 }
 
+const layer = "filter"
+
+func stripLayer(x string) string { return strings.TrimPrefix(x, layer+"-") }
+
+// nftDump: the verdict-map elements that are REALLY in the (fake) kernel, canonicalised.
+func (s *state) nftDump(mapName string) string {
+	elems, err := s.nftFake.ListElements(context.Background(), "map", layer+"-"+mapName)
+	if err != nil {
+		return "no-map"
+	}
+	var o []string
+	for _, e := range elems {
+		v := strings.Join(e.Value, "&")
+		if strings.HasPrefix(v, "goto ") {
+			v = "goto " + stripLayer(v[5:])
+		}
+		o = append(o, nfsem.Esc(strings.Join(e.Key, "&"))+"="+nfsem.Esc(v))
+	}
+	sort.Strings(o)
+	return strings.Join(o, ",")
+}
+
+// nftKernel: the dispatch root chains and verdict maps as they are in the (fake) kernel.
+func (s *state) nftKernel() (*nfsem.Table, *nfsem.Env) {
+	var text []nfsem.TextChain
+	env := &nfsem.Env{NFT: true, Vmap: map[string]map[string]string{}}
+	for _, cn := range []string{"cali-from-wl-dispatch", "cali-to-wl-dispatch"} {
+		rs, err := s.nftFake.ListRules(context.Background(), layer+"-"+cn)
+		tc := nfsem.TextChain{Name: cn}
+		if err == nil {
+			for _, r := range rs {
+				tc.Rules = append(tc.Rules, cn+": "+r.Rule)
+			}
+		}
+		text = append(text, tc)
+		m := map[string]string{}
+		if elems, err := s.nftFake.ListElements(context.Background(), "map", layer+"-"+cn); err == nil {
+			for _, e := range elems {
+				v := e.Value[0]
+				if strings.HasPrefix(v, "goto ") {
+					v = "goto " + stripLayer(v[5:])
+				}
+				m[e.Key[0]] = v
+			}
+		}
+		env.Vmap[layer+"-"+cn] = m
+	}
+	return nfsem.Parse(true, text), env
+}
+
+func (s *state) nftExec(h *rt.H, w []string) (out string) {
+	defer func() {
+		if e := recover(); e != nil {
+			if le, ok := e.(*logrus.Entry); ok {
+				out = "panic: " + nfsem.Esc(fmt.Sprint(le.Message, " ", le.Data["error"]))
+				return
+			}
+			panic(e)
+		}
+	}()
+	switch w[0] {
+	case "nft-new":
+		newDataplane := func(fam knftables.Family, name string, options ...knftables.Option) (knftables.Interface, error) {
+			s.nftFake = knftables.NewFake(fam, name)
+			return s.nftFake, nil
+		}
+		s.nftTable = nftables.NewTable("calico", 4, "cali:", environment.NewFeatureDetector(nil),
+			nftables.TableOptions{NewDataplane: newDataplane, LookPathOverride: testutils.LookPathNoLegacy, OpRecorder: logrusr.NewSummarizer("verif")}, true)
+		s.nftLayer = nftables.NewTableLayer(layer, s.nftTable)
+		s.nftR = renderer(true, "drop", []string{"cali"})
+		s.nftNames, s.nftSeen, s.nftEps = nil, map[string]bool{}, map[string]bool{}
+		// reference the dispatch chains from a base chain (as the static filter chains do), so that
+		// the table programs them
+		s.nftLayer.AppendRules("FORWARD", []generictables.Rule{
+			{Action: s.nftR.Jump("cali-from-wl-dispatch")}, {Action: s.nftR.Jump("cali-to-wl-dispatch")}})
+		// start of day: no workloads yet
+		s.nftLayer.UpdateChains(s.nftR.WorkloadDispatchChains(wlMap(nil)))
+		f0, t0 := s.nftR.DispatchMappings(wlMap(nil))
+		md0 := s.nftLayer.(nftables.MapsDataplane)
+		md0.AddOrReplaceMap(nftables.MapMetadata{Name: rules.NftablesFromWorkloadDispatchMap, Type: nftables.MapTypeInterfaceMatch}, f0)
+		md0.AddOrReplaceMap(nftables.MapMetadata{Name: rules.NftablesToWorkloadDispatchMap, Type: nftables.MapTypeInterfaceMatch}, t0)
+		s.nftTable.Apply()
+		return "ok"
+	case "nft-set":
+		names := decNames(w[1])
+		s.nftNames = names
+		eps := wlMap(names)
+		// what the endpoint manager does: endpoint chains, dispatch chains, verdict maps, then Apply
+		want := map[string]bool{}
+		for _, n := range names {
+			want[n] = true
+			s.nftSeen[n] = true
+		}
+		for n := range want {
+			if !s.nftEps[n] {
+				for _, pfx := range []string{"cali-fw-", "cali-tw-"} {
+					s.nftLayer.UpdateChain(&generictables.Chain{Name: rules.EndpointChainName(pfx, n, 256),
+						Rules: []generictables.Rule{{Action: nftables.AcceptAction{}}}})
+				}
+				s.nftEps[n] = true
+			}
+		}
+		for n := range s.nftEps {
+			if !want[n] {
+				for _, pfx := range []string{"cali-fw-", "cali-tw-"} {
+					s.nftLayer.RemoveChainByName(rules.EndpointChainName(pfx, n, 256))
+				}
+				delete(s.nftEps, n)
+			}
+		}
+		s.nftLayer.UpdateChains(s.nftR.WorkloadDispatchChains(eps))
+		from, to := s.nftR.DispatchMappings(eps)
+		md := s.nftLayer.(nftables.MapsDataplane)
+		md.AddOrReplaceMap(nftables.MapMetadata{Name: rules.NftablesFromWorkloadDispatchMap, Type: nftables.MapTypeInterfaceMatch}, from)
+		md.AddOrReplaceMap(nftables.MapMetadata{Name: rules.NftablesToWorkloadDispatchMap, Type: nftables.MapTypeInterfaceMatch}, to)
+		s.nftTable.Apply()
+		out := s.nftDump("cali-from-wl-dispatch") + " | " + s.nftDump("cali-to-wl-dispatch")
+		// the property on the REAL resulting kernel state, for every name ever seen in this history
+		tbl, env := s.nftKernel()
+		for n := range s.nftSeen {
+			if strings.HasSuffix(n, "*") {
+				continue
+			}
+			for _, d := range []struct{ root, pfx string }{{"cali-from-wl-dispatch", "cali-fw-"}, {"cali-to-wl-dispatch", "cali-tw-"}} {
+				got := tbl.Eval(env, &nfsem.Pkt{In: n, Out: n}, 8, d.root, 0).String()
+				wantS := "drop"
+				if want[n] {
+					wantS = "to:" + d.pfx + n
+				}
+				if got != wantS {
+					h.OracleFail("nft-dispatch-stale-map", fmt.Sprintf("after Apply with workload interfaces %q the kernel state dispatches interface %q via %s to %s, property demands %s",
+						names, n, d.root, got, wantS), map[string]any{"names": hexAll(names), "probe": encName(n)})
+				}
+			}
+		}
+		return out
+	case "nft-probe":
+		tbl, env := s.nftKernel()
+		n := decName(w[1])
+		f := tbl.Eval(env, &nfsem.Pkt{In: n, Out: n}, 8, "cali-from-wl-dispatch", 0)
+		t := tbl.Eval(env, &nfsem.Pkt{In: n, Out: n}, 8, "cali-to-wl-dispatch", 0)
+		sh := func(r nfsem.Result) string {
+			if r.Kind == "missing" {
+				return "to:" + nfsem.Esc(r.Chain)
+			}
+			return r.String()
+		}
+		return "from=" + sh(f) + " to=" + sh(t)
+	}
+	panic("unknown nft op")
+}
+
 func exec(h *rt.H, s *state, op string) string {
 	w := strings.Fields(op)
+	if strings.HasPrefix(w[0], "nft-") {
+		return s.nftExec(h, w)
+	}
 	switch w[0] {
 	case "wl":
 		s.kind, s.nft, s.names = "wl", w[1] == "nft", decNames(w[3])
@@ -405,7 +578,49 @@ func genNames(h *rt.H, allowDup bool) (names []string, pool []string) {
 	return
 }
 
+// genNftHistory: a history of workload-interface sets over ONE real nftables table, including
+// transitions to the empty set and back, with probes of current / removed / unknown names.
+func genNftHistory(h *rt.H) []string {
+	ops := []string{"nft-new"}
+	var universe []string
+	base := rt.Pick(h, []string{"cali", "cali", "tap"})
+	for len(universe) < 2+h.Intn(5) {
+		n := genName(h, base)
+		if n == "" || strings.ContainsAny(n, " \"*") {
+			continue
+		}
+		universe = append(universe, n)
+	}
+	steps := 2 + h.Intn(6)
+	for i := 0; i < steps; i++ {
+		var cur []string
+		switch h.Intn(5) {
+		case 0: // empty
+		case 1:
+			cur = []string{rt.Pick(h, universe)}
+		default:
+			for _, n := range universe {
+				if h.Bool() {
+					cur = append(cur, n)
+				}
+			}
+		}
+		ops = append(ops, "nft-set "+encNames(cur))
+		for j := 0; j < 1+h.Intn(3); j++ {
+			pr := rt.Pick(h, universe)
+			if h.Chance(0.2) {
+				pr += "z"
+			}
+			ops = append(ops, "nft-probe "+encName(pr))
+		}
+	}
+	return ops
+}
+
 func genCase(h *rt.H) []string {
+	if h.Chance(0.2) {
+		return genNftHistory(h)
+	}
 	var ops []string
 	dp := rt.Pick(h, []string{"ipt", "ipt", "nft"})
 	var roots []string
